@@ -23,7 +23,7 @@ SIBLINGS = {
 }
 
 
-def co_marker_scenarios(sid, own, kind, typ, sets_for, aux=None, sibs=None):
+def co_marker_scenarios(sid, own, kind, typ, sets_for, aux=None, sibs=None, alias_of_defined=True):
     """Each marker of `own` on a field that also carries one other marker applicable to the type: before it, after it, on the
     struct declaration, and inside an inline struct.  A rule's verdict never depends on its neighbours.
     sets_for(path) -> list of value-sets for the field at `path`."""
@@ -59,6 +59,19 @@ def co_marker_scenarios(sid, own, kind, typ, sets_for, aux=None, sibs=None):
     per = [sets_for(p_) for p_ in mpaths]
     n = max(len(v) for v in per)
     structs.append(struct("Mn", mfs, [case([v[(j2 + 2 * i) % len(v)] for i, v in enumerate(per)]) for j2 in range(n)]))
+    # the field type spelled through an alias declaration, and through an alias of a defined type (identical / same underlying type)
+    auxl = list(aux or [])
+    once = typ["model"] if typ["model"].startswith("TNamed") else "TNamed (%s)" % typ["model"]     # go/types' Underlying() resolves the whole chain
+    a1, al1 = alias("Al_" + sid, typ)
+    d2, df2 = named("Df_" + sid, typ)
+    a2, al2 = alias("AlDf_" + sid, df2)
+    al1["model"] = df2["model"] = al2["model"] = once
+    auxl += [a1] + ([d2, a2] if alias_of_defined else [])
+    afs = [fld("%s%d" % (pre, j), ["//govalid:" + o], t_) for j, o in enumerate(own) for pre, t_ in ((("Ka", al1), ("Kd", al2)) if alias_of_defined else (("Ka", al1),))]
+    per = [sets_for(f["names"][0]) for f in afs]
+    n = max(len(v) for v in per)
+    structs.append(struct("Al", afs, [case([v[(j2 + i) % len(v)] for i, v in enumerate(per)]) for j2 in range(n)]))
+    aux = auxl
     # the SAME marker on the struct declaration with another parameter: both rules govern the field, each with its own N
     import re as _re
     for j, o in enumerate(own):
@@ -307,8 +320,14 @@ def c03(seed, tier):
     cases = [case([set_str(nm, s) for nm in names]) for s in strings]
     covals = [b"", b"a", b"ab", b"abc", b"abcd", b"abcde", "日本語".encode(), b"1.2.3.4", b"12", b"\xff\xfe\xfd", b"a@b.c", b"   "]
     co = co_marker_scenarios("c03co", ["minlength=3", "maxlength=3", "length=3"], "string", basic("string"),
-                             lambda p: [set_str(p, v) for v in covals])
-    return {"scenarios": [scenario("c03", [struct("T", fields, cases)], aux=[a_text]), co]}
+                             lambda p: [set_str(p, v) for v in covals], alias_of_defined=False)
+    rvals = [b"", b"a", b"ab", b"abc", b"abcd", b"abcde", "é".encode(), "日本語".encode(), "😀😀😀😀😀".encode(), b"\xf0\x9f\x98\xf0\x9f", b"\xff\xfe"]
+    lm = ["//govalid:minlength=2", "//govalid:maxlength=4", "//govalid:length=3"]
+    route = struct("Route", [fld("Via", lm, nested=[fld("City", [], basic("string"))]), fld(["From", "To", "Back"], lm, nested=[fld("City", [], basic("string"))]),
+                             fld("RefV", lm, basic("string")), fld(["RefF", "RefT", "RefB"], lm, basic("string"))],
+                   [case([s_ for nm, ref, off in (("Via", "RefV", 0), ("From", "RefF", 1), ("To", "RefT", 3), ("Back", "RefB", 7))
+                          for s_ in (set_str(nm + ".City", rvals[(k + off) % len(rvals)]), set_str(ref, rvals[(k + off) % len(rvals)]))]) for k in range(len(rvals))])
+    return {"scenarios": [scenario("c03", [struct("T", fields, cases)], aux=[a_text]), co], "route": {"scenarios": [scenario("c03route", [route])]}}
 
 
 def c04(seed, tier):
@@ -328,6 +347,14 @@ def c04(seed, tier):
     t["model"] = "TNamed (TSlice)"         # go/types' Underlying() resolves the whole chain
     aux.append(a)
     kinds.append(("ANSl", t))
+    # named collection types with size-like methods of their own: the rule is about len(), whatever the type says about itself
+    for nm, under, meths in (("LSl", SLICE, "func (x LSl) Len() int { return len(x) + 7 }\nfunc (x LSl) Cap() int { return 0 }"),
+                             ("LMp", MAP, "func (x *LMp) Len() int { return -1 }\nfunc (x LMp) Size() int { return 99 }"),
+                             ("LCh", CHAN, "func (x LCh) Len() int { return cap(x) + 1 }\nfunc (x LCh) Count() int { return 3 }"),
+                             ("LAr", array(2), "func (x LAr) Len() int { return 0 }\nfunc (x LAr) Length() int { return 9 }")):
+        a, t = named(nm, under)
+        aux.append(a + "\n" + meths)
+        kinds.append((nm, t))
     ns = [0, 1, 2, 3, 5]
     fields = []
     for marker in ("minitems", "maxitems"):
@@ -521,7 +548,7 @@ def c06(seed, tier):
                           for s_ in (set_str(nm + m + ".Addr", strs[m][(k + off) % len(strs[m])]), set_str(ref + m, strs[m][(k + off) % len(strs[m])]))]) for k in range(16)])
     covals = [b"", b"a", b"ab", b"abc", b"1.2.3.4", b"12", b"::1", b"a@b.c", b"http://a.b", b"550e8400-e29b-41d4-a716-446655440000", b"abcde"]
     co = co_marker_scenarios("c06co", markers, "string", st, lambda p: [set_str(p, v) for v in covals],
-                             sibs=["required", "minlength=2", "enum=ab,abc,1.2.3.4", "numeric"])
+                             sibs=["required", "minlength=2", "enum=ab,abc,1.2.3.4", "numeric"], alias_of_defined=False)
     return {"scenarios": [scenario("c06", [struct("T", fields, cases)], aux=[a_alias]), co], "hosts": {"scenarios": [scenario("c06hosts", [hosts])]}, "route": {"scenarios": [scenario("c06route", [route])]}}
 
 
